@@ -1389,6 +1389,17 @@ ldb_versions_apply(ldb_versions_t *vset, ldb_edit_t *edit, ldb_mutex_t *mu) {
       vset->descriptor_file = NULL;
 
       ldb_remove_file(fname);
+    } else if (vset->descriptor_log != NULL) {
+      /* The write to the existing descriptor failed, so its tail may hold a
+         partial record, and anything appended after that would make the
+         whole file unreadable. Abandon it: the next call starts a new
+         descriptor (snapshot + edit) and switches CURRENT once it is safe. */
+      ldb_writer_destroy(vset->descriptor_log);
+      ldb_wfile_destroy(vset->descriptor_file);
+
+      vset->descriptor_log = NULL;
+      vset->descriptor_file = NULL;
+      vset->manifest_file_number = ldb_versions_new_file_number(vset);
     }
   }
 
